@@ -318,19 +318,19 @@ theorem fmLineS_nil (gR gI : Bytes → Res Nat) : fmLineS gR gI [] = .ok none :=
 
 theorem fm_lineFormat {conv : Conv} {gR gI gQ : Bytes → Res Nat} {gC : Bytes → Res (Nat × Nat)}
     (hL : conv.LocalWith gR gI gQ gC) (iw mode : Nat) :
-    LineFormat (fmRows Fixes.repaired conv iw mode) (fmRecS gR gI iw mode) where
-  block_eq := fm_block_eq hL iw mode
-  strip := fun L => by simp [fmRecS, fmLineS, pairS_strip]
-  nil := by simp [fmRecS, fmLineS_nil, Except.map]
-  fields := Or.inr (fun L r h => by
-    simp only [fmRecS] at h
-    cases hs : fmLineS gR gI L with
-    | error e => simp [hs, Except.map] at h
-    | ok o =>
-      cases o with
-      | none => simp [hs, Except.map] at h
-      | some l =>
-        simp [hs, Except.map] at h
-        by_cases hm : mode > 0 <;> simp [hm] at h <;> subst h <;> simp [decRecBoth, fmRec])
+    LineFormat (fun _ => true) (fmRows Fixes.repaired conv iw mode) (fmRecS gR gI iw mode) :=
+  LineFormat.ofBlockEq (fm_block_eq hL iw mode)
+    (fun L => by simp [fmRecS, fmLineS, pairS_strip])
+    (by simp [fmRecS, fmLineS_nil, Except.map])
+    (Or.inr (fun L r h => by
+      simp only [fmRecS] at h
+      cases hs : fmLineS gR gI L with
+      | error e => simp [hs, Except.map] at h
+      | ok o =>
+        cases o with
+        | none => simp [hs, Except.map] at h
+        | some l =>
+          simp [hs, Except.map] at h
+          by_cases hm : mode > 0 <;> simp [hm] at h <;> subst h <;> simp [decRecBoth, fmRec]))
 
 end DmlcModel.Parse
